@@ -305,8 +305,10 @@ def add_stream_scn(prefix, caps=(1, 2), fut=False, shared_parent=False):
                    [S("add_stream", "rx", new="n1"), S(rcv, "rx"), S(rcv, "n1"), S(rcv, "rx")],
                    [S("add_stream", "s2", new="n2"), S(rcv, "s2"), S(rcv, "s2"), S(rcv, "n2")]]
         hs = ("rx", "s2", "n1", "n2")
-        fin = [S("drain", h) for h in hs] + [S("fill", "tx", v=9000, n=20)] + [S("drop", "tx")] + \
-              [S("drain", h) for h in hs] + [S("drop", h) for h in hs]
+        # first fill with every stream where the concurrent part left it: a stream that was silently taken off the
+        # list and lags behind no longer holds the producer back, and is then handed what overwrote its values
+        fin = [S("fill", "tx", v=8000, n=20)] + [S("drain", h) for h in hs] + [S("fill", "tx", v=9000, n=20)] + \
+              [S("drop", "tx")] + [S("drain", h) for h in hs] + [S("drop", h) for h in hs]
         name = "%s-double%s-c%d-%d" % (prefix, "F" if fut else "", cap, k)
         k += 1
         out.append(scenario(name, "bcast", fut, cap, "busy", t.setup, threads, fin))
